@@ -32,7 +32,8 @@ def fmtOf : Sexp → Option (String → String → List (String × String) → S
       | .atom "-" => some ({ langs := [("en", Gen.enMap), ("es", Gen.esMap)], dflt := "en" } : Install)
       | k => do pure { langs := [("en", Gen.enMap), ("es", Gen.esMap)], dflt := "en", key := some (← k.str?) }
     let ctx ← ctx.mapM fun kv => match kv with
-      | .list [k, l] => do pure (← k.str?, ← l.str?)
+      | .list [k, l] => do pure (← k.str?, some (← l.str?))
+      | .list [k] => do pure (← k.str?, (none : Option String))   -- present, not a string
       | _ => none
     pure (installedFmt (defaultFmt Gen.defaultMap) hist ctx)
   | .list [.atom "fmt", .atom "i18n", .atom "-"] => some (i18nFmt [("en", Gen.enMap), ("es", Gen.esMap)] "en" none)
@@ -143,13 +144,20 @@ def urlRecord (data : List (String × List String)) : Val :=
 def runHttp (args : List Sexp) : Option Sexp := do
   match args with
   | [id, method, ct, queryS, formS, jsonS, schemaS, destS, orderS, extS] =>
+    runHttp' id method ct queryS formS jsonS schemaS destS orderS extS (defaultFmt Gen.defaultMap)
+  | [id, method, ct, queryS, formS, jsonS, schemaS, destS, orderS, extS, fmtS] => do
+    let f ← fmtOf fmtS
+    runHttp' id method ct queryS formS jsonS schemaS destS orderS extS f
+  | _ => none
+where runHttp' (id method ct queryS formS jsonS schemaS destS orderS extS : Sexp)
+    (fmt : String → String → List (String × String) → String) : Option Sexp := do
     let method ← method.str?
     let ct ← ct.str?
     let o ← oracle? extS
     let s ← schema? o schemaS
     let d ← dval? destS
     let ω ← orderOracle? orderS
-    let env : Env := { fmt := defaultFmt Gen.defaultMap, ω := ω }
+    let env : Env := { fmt := fmt, ω := ω }
     let src := Http.dispatch Gen.httpMethods Gen.httpTypes method.toList ct.toList
     -- decoded input (or the decoder's failure code) and the tag of the source
     let (decoded, tag) : (Except String Val × String) ← match src with
@@ -174,7 +182,6 @@ def runHttp (args : List Sexp) : Option Sexp := do
       | .ok v => Spec.run env .parse s (some tag) v d
     pure (node "res" [id, .atom (match src with | .query => "query" | .form => "form" | .json => "json"),
       issueMapS (toIssueMap r.2.sink), node "dest" [dvalS r.1], node "log" (r.2.log.map eventS)])
-  | _ => none
 
 def fieldMap? : Sexp → Option Helpers.FieldMap
   | .list kvs => kvs.mapM fun kv => match kv with
